@@ -16,6 +16,8 @@ tt = None
 def setup(ctx):
     global tt
     tt = arm_tt(ctx)
+    gen.ALIAS = 0.12
+    gen.PROV = 0.25  # a quarter of the generated operands come with a history of library operations (gen.provenance)
 
 
 def make(rng, dmax=5, boundary=False):
@@ -57,12 +59,18 @@ def make(rng, dmax=5, boundary=False):
         cores = gen.rand_cores(rng, rows, cols, ranks, cplx)
         gen.apply_scale(cores, rng, float(10 ** rng.uniform(-10, 10)))
         kind = 'scaled'
+    if rng.random() < 0.15:  # equal-shaped cores are one ndarray object (x (x) x (x) x as TT([x, x, x]), homogeneous chains)
+        if rng.random() < 0.5 and d > 1:  # make that likely: homogeneous shape
+            m, n, r = rows[0], cols[0], int(rng.integers(1, 3))
+            cores = gen.rand_cores(rng, [m] * d, [n] * d, [r] * (d + 1), cplx if cplx != 'mixed' else True)
+        gen.alias_equal_shapes(cores)
+        kind += '_aliased_cores'
     return tt.TT(cores), kind
 
 
 def clone(t):
     with probe.oracle():
-        return tt.TT([c.copy() for c in t.cores])
+        return tt.TT(gen.clone_cores(t.cores))
 
 
 def w_sweeps(ctx, rng, idx):
@@ -97,7 +105,13 @@ def w_partial(ctx, rng, idx, param):
     rows, cols = gen.rand_dims(rng, d, 3), ([1] * d if rng.random() < 0.5 else gen.rand_dims(rng, d, 2))
     ranks = gen.rand_ranks(rng, d, 4)
     cplx = gen.rand_cplx(rng)
-    t = tt.TT(gen.rank_deficient_cores(rng, rows, cols, ranks, cplx) if rng.random() < 0.3 else gen.rand_cores(rng, rows, cols, ranks, cplx))
+    cores = gen.rank_deficient_cores(rng, rows, cols, ranks, cplx) if rng.random() < 0.3 else gen.rand_cores(rng, rows, cols, ranks, cplx)
+    if rng.random() < 0.2:  # a train assembled from one block repeated (Kronecker powers, TT(b.cores + b.cores)): shared core objects
+        if rng.random() < 0.5:
+            r = int(rng.integers(1, 3))
+            cores = gen.rand_cores(rng, [rows[0]] * d, [cols[0]] * d, [r] * (d + 1), cplx if cplx != 'mixed' else True)
+        gen.alias_equal_shapes(cores)
+    t = tt.TT(cores)
     ctx.describe({'op': 'ortho_' + side, 'start': s, 'end': e, 'row': rows, 'col': cols, 'ranks': ranks})
     if side == 'left':
         call('TT.ortho_left', lambda: t.ortho_left(start_index=s, end_index=e), prop=P)
